@@ -668,6 +668,8 @@ class ANF:
             return args[0]
         if fn[0] == "x" and fn[1] == "builtins.len" and args and args[0][0] in ("list", "tuple"):
             return C(len(args[0][1]))
+        if fn[0] == "x" and fn[1] == "builtins.len" and len(args) == 1 and args[0][0] == "upd":
+            args = [base_of(args[0])]          # a store into an array does not change its length
         if fn[0] == "x" and fn[1] in ("builtins.list", "builtins.tuple") and len(args) == 1 and args[0][0] in ("list", "tuple") and not kw:
             return (fn[1].split(".")[-1], args[0][1])
         if fn[0] == "x" and fn[1] == "builtins.zip" and args and all(a[0] in ("list", "tuple") for a in args) and not kw:
